@@ -269,6 +269,10 @@ class FlowConfigParser(configparser.ConfigParser):
         args = kwargs.copy()
         if 'strict' not in args:
             args['strict'] = False
+        if 'interpolation' not in args:
+            # VV: Values are FlowIR text: they are read back raw (see get()) and must be written as they are, a `%` which
+            #     is not part of a %(reference)s (e.g. `date +%Y`) is not a syntax error
+            args['interpolation'] = None
         super(FlowConfigParser, self).__init__(defaults, dict_type, allow_no_value=allow_no_value, **args)
 
     def get(self, section, option, raw=True, vars=None):
